@@ -36,7 +36,9 @@ pub open spec fn db_put(d: Db, table: int, k: Seq<u8>, v: u64) -> Db { Db { t: d
 pub open spec fn db_del(d: Db, table: int, k: Seq<u8>) -> Db { Db { t: d.t.insert(table, d.t[table].remove(k)) } }
 
 // the world outside Rust values: what LMDB has committed and what the event map file holds
-pub struct World { pub committed: Db, pub map: Seq<u8>, pub map_end: int }
+//   committed : LMDB's last committed state           map / map_end : bytes of the event map file and its end marker
+//   events    : ghost directory of the events appended so far (offset -> bytes), tied to `map` by world_inv
+pub struct World { pub committed: Db, pub map: Seq<u8>, pub map_end: int, pub events: Map<int, Seq<u8>> }
 
 pub struct Bytes { }
 pub struct Unit { }
@@ -57,7 +59,7 @@ impl<'a> RwTxn<'a> {
         ensures
             r is Ok ==> final(w).committed == self.cur@,
             r is Err ==> final(w).committed == old(w).committed,
-            final(w).map == old(w).map, final(w).map_end == old(w).map_end,
+            final(w).map == old(w).map, final(w).map_end == old(w).map_end, final(w).events == old(w).events,
     { unimplemented!() }
 }
 
